@@ -43,8 +43,10 @@ def gen_reference(rnd, n_labels, repetitive=False):
     return pos, pos[-1] + rnd.randint(500, 5000)
 
 
-def gen_query(rnd, refs, kind):
-    """returns (positions, truth dict)"""
+def gen_query(rnd, refs, kind, rx=None):
+    """returns (positions, truth dict); rx = a second random stream for the input classes added later (so that the sets of earlier seeds keep their
+    other molecules: recorded regression seeds stay meaningful)"""
+    rx = rx or random.Random(0)
     usable = [i for i, r in enumerate(refs) if len(r[2]) >= 20]
     rid = rnd.choice(usable)
     rpos = refs[rid][2]
@@ -97,6 +99,12 @@ def gen_query(rnd, refs, kind):
         a2 = rnd.randint(0, len(r2) - k2)
         p1 = [p - rpos[a] for p in rpos[a:b]]
         p2 = [p - r2[a2] + p1[-1] + rnd.randint(3000, 9000) for p in r2[a2:a2 + k2]]
+        if rx.random() < 0.3:
+            # two labels at the same coordinate (unresolved double label - legal CMAP) next to the junction, where a second-pass fragment begins or ends
+            j = rx.randint(-3, 3)
+            src = p1 if j < 0 else p2
+            x = src[max(0, min(len(src) - 1, j if j >= 0 else len(src) + j))]
+            (p1 if j < 0 else p2).append(x)
         lab = p1 + p2
     elif kind == 'degenerate':
         choice = rnd.randrange(5)
@@ -122,6 +130,11 @@ def gen_query(rnd, refs, kind):
         top = lab[-1]
         lab = sorted(top - p for p in lab)
     off = rnd.randint(0, 3000)
+    if rx.random() < 0.08:
+        # a long unlabelled stretch before the first label (and, through `tail`, behind the last one): the declared molecule length then exceeds the
+        # labelled span by far - even the length of every reference - which is legal and must not matter (queries are trimmed)
+        off = rx.randint(100000, 900000)
+        truth['tail'] = rx.randint(100000, 900000)
     lab = [p + off for p in lab]
     return lab, truth
 
@@ -131,6 +144,7 @@ KINDS = ('exact', 'noisy', 'stretched', 'indel', 'chimeric', 'degenerate')
 
 def gen_set(seed, n_queries=(6, 10), kinds=KINDS, weights=None, n_refs=None, odd_refs=False):
     rnd = random.Random(seed)
+    rx = random.Random(seed * 7919 + 13)
     refs = []
     for i in range(n_refs or rnd.randint(1, 3)):
         pos, length = gen_reference(rnd, rnd.randint(40, 120), repetitive=(rnd.random() < 0.25))
@@ -144,12 +158,49 @@ def gen_set(seed, n_queries=(6, 10), kinds=KINDS, weights=None, n_refs=None, odd
     nq = rnd.randint(*n_queries)
     for q in range(nq):
         kind = rnd.choices(kinds, weights=weights)[0]
-        lab, truth = gen_query(rnd, refs, kind)
+        lab, truth = gen_query(rnd, refs, kind, rx)
         qid = (q + 1) * rnd.choice((1, 1, 3)) + (100 if rnd.random() < 0.2 else 0)
         while qid in truths:
             qid += 1
-        queries.append((qid, lab[-1] + rnd.randint(1, 2000), lab))
+        tail = rnd.randint(1, 2000)
+        queries.append((qid, lab[-1] + truth.pop('tail', tail), lab))
         truths[qid] = truth
+    return refs, queries, truths
+
+
+def gen_dense_set(seed):
+    """densely labelled maps (about one label per 4 kb, as DLS data) on SHORT reference contigs, with molecules that cover a contig almost completely and lie
+    flush with its first or last label: the seeding correlation is then only a few bins long, its maximum sits on the border (never reported as a peak) and
+    interior peaks can score at or below the noise level - seeds all the same.  Plus one ordinary interior molecule per contig."""
+    rnd = random.Random(seed)
+    refs, queries, truths = [], [], {}
+    qid = 0
+    for ci in range(rnd.randint(4, 6)):
+        size = rnd.choice((60000, 120000, 180000, 240000))
+        pos = [rnd.randint(0, 1300)]
+        while pos[-1] < size:
+            pos.append(pos[-1] + max(600, int(rnd.expovariate(1 / 4000.0))))
+        refs.append((ci + 1, pos[-1] + rnd.randint(100, 900), pos))
+        for variant in range(rnd.randint(3, 5)):
+            drop = rnd.randint(1, 4)
+            if len(pos) - drop < 6:
+                continue
+            if variant == 0 and len(pos) > 30:
+                a = rnd.randint(2, len(pos) - 24)
+                part = pos[a:a + rnd.randint(12, 22)]                # an interior molecule
+            elif rnd.random() < 0.5:
+                part = pos[:-drop]                                    # flush with the first label
+            else:
+                part = pos[drop:]                                     # flush with the last label
+            lab = sorted({0} | {p - part[0] + rnd.randint(-150, 150) for p in part[1:]})
+            lab = [p - min(lab) for p in lab]
+            rev = rnd.random() < 0.5
+            if rev:
+                lab = sorted(lab[-1] - p for p in lab)
+            qid += rnd.choice((1, 1, 2))
+            off = rnd.randint(0, 40)
+            queries.append((qid, lab[-1] + off + rnd.randint(1, 40), [p + off for p in lab]))
+            truths[qid] = dict(kind='dense', reference=ci + 1, reverse=rev)
     return refs, queries, truths
 
 
@@ -217,12 +268,15 @@ def _ordered_map(f, items, num_cpus=None, disable=None):
 
 
 OUTPUT_NAME_STYLES = ('out_{mode}.xmap', 'out_{mode}.tsv', 'aln_{mode}')
+STDOUT_STYLE = 3      # no -o option: the XMAP goes to standard output (the documented default); used for mode 'best' only - the other modes derive the
+#                       names of their additional files from the name of the output stream
 
 
 def run_program(workdir, mode, extra=(), capture=True, cpus=None, style=0):
     """run the real Program in this process with p_imap replaced by an in-process ordered map.
     style varies what the option help allows but the samples never use: 0 = '-o x.xmap -c 1', 1 = an output name with another
-    extension, 2 = an output name without extension and no -c option (the default worker count)"""
+    extension, 2 = an output name without extension and no -c option (the default worker count), 3 = no -o option (mode 'best' only): everything the
+    process writes to standard output is then the XMAP file"""
     import warnings
     warnings.simplefilter('ignore')
     from src.args import Args
@@ -233,6 +287,9 @@ def run_program(workdir, mode, extra=(), capture=True, cpus=None, style=0):
     if cpus is None:
         wc.p_imap = _ordered_map
     res = Run()
+    to_stdout = (style == STDOUT_STYLE and mode == 'best')
+    if style == STDOUT_STYLE:
+        style = 0
     out = os.path.join(workdir, OUTPUT_NAME_STYLES[style % 3].format(mode=mode))
 
     class Catcher(Extension):
@@ -242,20 +299,27 @@ def run_program(workdir, mode, extra=(), capture=True, cpus=None, style=0):
             for m in message.messages:
                 res.candidates.setdefault(m.query.moleculeId, []).append((m.alignment, m.query, m.reference, m.correlation))
 
-    argv = ['-r', os.path.join(workdir, 'r.cmap'), '-q', os.path.join(workdir, 'q.cmap'), '-o', out, '-pb', '-oM', mode]
+    argv = ['-r', os.path.join(workdir, 'r.cmap'), '-q', os.path.join(workdir, 'q.cmap')] + ([] if to_stdout else ['-o', out]) + ['-pb', '-oM', mode]
     if cpus is not None or style % 3 != 2:
         argv += ['-c', str(cpus if cpus is not None else 1)]
     argv += [str(x) for x in extra]
+    import contextlib
+    import sys
+    stream = open(out, 'w') if to_stdout else None          # stands for the process's standard output (a real file object: it has a name and an encoding)
     try:
-        args = Args.parse(argv)
-        res.args = args
-        prog = Program(args, [Catcher()] if capture else None)
-        res.reference_maps, res.query_maps = prog.referenceMaps, prog.queryMaps
-        res.coordinator = prog.workflowCoordinator
-        result = prog.run()
-        res.rows = result.rows
+        with (contextlib.redirect_stdout(stream) if to_stdout else contextlib.nullcontext()):
+            args = Args.parse(argv)
+            res.args = args
+            prog = Program(args, [Catcher()] if capture else None)
+            res.reference_maps, res.query_maps = prog.referenceMaps, prog.queryMaps
+            res.coordinator = prog.workflowCoordinator
+            result = prog.run()
+            res.rows = result.rows
     except BaseException as e:          # SystemExit from argparse included
         res.error = f"{type(e).__name__}: {e}\n" + traceback.format_exc()[-1500:]
+    finally:
+        if stream is not None and not stream.closed:
+            stream.close()
     base, ext = os.path.splitext(out)
     for sfx in ('', '_1', '_2'):
         p = f"{base}{sfx}{ext}"
